@@ -294,18 +294,13 @@ theorem conv_count_le (s : List Byte) :
             · refine ⟨by simp, by simp, ?_⟩
               intro ng m e c hc; simp only [Conv.val.injEq] at hc; rw [← hc.2.2.2]; exact Nat.sub_le _ _
 
-theorem gFloat_ok (dbl : Bool) : GrammarOKOn floatGood (gFloat dbl) where
+theorem gFloat_ok (dbl : Bool) : GrammarOK (gFloat dbl) where
   count_le := by
     intro s v c h
     obtain ⟨h1, h2, h3⟩ := conv_count_le s
     unfold gFloat at h
-    simp only at h
     cases hc : conv s with
-    | junk =>
-      rw [hc] at h; simp only at h
-      split at h
-      · simp only [Option.some.injEq, Prod.mk.injEq] at h; omega
-      · cases h
+    | junk => rw [hc] at h; cases h
     | nan cnt =>
       rw [hc] at h; simp only at h
       split at h
@@ -316,38 +311,25 @@ theorem gFloat_ok (dbl : Bool) : GrammarOKOn floatGood (gFloat dbl) where
     | val ng m e cnt =>
       rw [hc] at h; simp only [Option.some.injEq, Prod.mk.injEq] at h; have := h3 ng m e cnt hc; omega
   prefix_det := by
-    intro tok sp junk hne hns hs hgood
+    intro tok sp junk hne hns hs _
     cases tok with
     | nil => exact absurd rfl hne
     | cons a t =>
-      obtain ⟨_, _, _, _, _, _, _, h78, h110, _, _⟩ := space_facts hs
       have hconv := conv_append a t junk hns hs
-      -- the whole string is never "NaN"/"nan" (it contains a space); the token is not by hypothesis
-      have hok1 : ((a :: t ++ sp :: junk) == [78, 97, 78] || (a :: t ++ sp :: junk) == [110, 97, 110]) = false := by
-        have hmem : sp ∈ a :: t ++ sp :: junk := by simp
-        have n1 : (a :: t ++ sp :: junk) ≠ [78, 97, 78] := by
-          intro hc; rw [hc] at hmem; simp at hmem
-          rcases hmem with hm | hm | hm <;> subst hm <;> simp [isSpace] at hs
-        have n2 : (a :: t ++ sp :: junk) ≠ [110, 97, 110] := by
-          intro hc; rw [hc] at hmem; simp at hmem
-          rcases hmem with hm | hm | hm <;> subst hm <;> simp [isSpace] at hs
-        rw [Bool.or_eq_false_iff]; exact ⟨beq_eq_false_iff_ne.mpr n1, beq_eq_false_iff_ne.mpr n2⟩
-      have hok2 : ((a :: t) == [78, 97, 78] || (a :: t) == [110, 97, 110]) = false := by
-        obtain ⟨g1, g2⟩ := hgood
-        rw [Bool.or_eq_false_iff]; exact ⟨beq_eq_false_iff_ne.mpr g1, beq_eq_false_iff_ne.mpr g2⟩
+      obtain ⟨h1, _, _⟩ := conv_count_le (a :: t)
       unfold gFloat
-      simp only [hok1, hok2, hconv]
+      rw [hconv]
+      cases hc : conv (a :: t) with
+      | nan cnt =>
+        have := h1 cnt hc
+        simp only
+        rw [List.take_append_of_le_length this]
+      | _ => rfl
   empty := by cases dbl <;> decide
 
 /-- **the concrete grammars of the model satisfy the grammar hypotheses**: the integer ones on every token, the
-floating-point ones on every token except `NaN` and `nan`. -/
-def goodTok : NumKind → List Byte → Prop
-  | .float, tok => floatGood tok
-  | .double, tok => floatGood tok
-  | .long, _ => True
-  | .ulong, _ => True
-
-theorem grammar_ok : ∀ k, GrammarOKOn (goodTok k) (grammar k) := by
+floating-point ones too now that the NaN test looks at the consumed characters. -/
+theorem grammar_ok : ∀ k, GrammarOK (grammar k) := by
   intro k
   cases k with
   | float => exact gFloat_ok false
